@@ -369,7 +369,7 @@ def do(op: dict) -> str:
             return f"construct=error:{err_class(e)} msg={str(e)[:70].replace(' ', '_').replace('=', ':')}"
         if tmpd:
             _sh.rmtree(tmpd, ignore_errors=True)
-        out = f"construct=ok thr={frac(Fraction(float(sv.conv_threshold)))} gamma_dtype={jnp.asarray(sv.gamma).dtype}"
+        out = f"construct=ok thr={frac(Fraction(float(sv.conv_threshold)))} gamma_dtype={jnp.asarray(sv.gamma).dtype} fmt={getattr(sv, 'convergence_format', '_')}"
         try:
             st = sv.solve(op.get("k", 3))
         except Exception as e:  # noqa: BLE001
